@@ -130,9 +130,7 @@ static void spec_msf(void)
                 line_begin();
                 sb_puts(&cur, " Name: "); sb_puts(&cur, names[i]);
                 for(j = kv_nl[i]; j < maxname(); j++){ sb_putc(&cur, ' '); }
-                sb_puts(&cur, "  Len:  "); sb_dec_fixed(&cur, KV_W, 5);                          /* alignment length */
-                sb_puts(&cur, "  Check: "); sb_dec_fixed(&cur, spec_gcg(rows[i], KV_W), 4);     /* GCG checksum of the whole row */
-                sb_puts(&cur, "  Weight: 1.00");
+                sb_puts(&cur, "  Len:      *  Check:    *  Weight: 1.00");     /* the two numbers are compared as recorded values below */
                 line_end();
         }
         line_lit("");
@@ -207,6 +205,12 @@ void h_c15_write(void)
                 KV_CHECK(kv_msf.len == KV_W, "MSF: header declares the true alignment length");
                 KV_CHECK(kv_msf.type == (KV_PROT ? 'P' : 'N'), "MSF: Type is P for protein, N for nucleic acid");
                 KV_CHECK(kv_msf.check == kv_spec_total, "MSF: header Check is the sum of the row checksums mod 10000");
+                KV_CHECK(kv_msf.nname == KV_N, "MSF: one Name line per sequence");
+                for(i = 0; i < KV_N; i++){
+                        KV_CHECK(kv_msf.name_len[i] == KV_W, "MSF: every Name line declares the alignment length");
+                        KV_CHECK(kv_msf.name_check[i] == spec_gcg(rows[i], KV_W), "MSF: every Name line declares the GCG checksum of the whole row");
+                        KV_CHECK(kv_msf.name_width[i] == maxname(), "MSF: names padded to the longest name");
+                }
                 KV_CHECK(!kv_dec_overflow, "MSF: numbers fit their fields");
 #endif
 #endif
